@@ -1861,8 +1861,12 @@ impl<E: Effect> Executor<E> {
                     // bindings as its locals: a tail call from there must leave them in place
                     // (`5 ^f` on a REPL line used to wipe every variable of the session). The
                     // callee's captures and locals go on top of them.
-                    let keeps_session_locals = proc.persistent && proc.frames.len() == 1;
+                    let keeps_session_locals =
+                        proc.persistent && proc.frames.len() == 1 && proc.session_frame;
                     let locals_base = if keeps_session_locals {
+                        // From here on the bottom frame is the callee's: its further tail calls
+                        // clear down to this base like any frame's.
+                        proc.session_frame = false;
                         proc.locals.len()
                     } else {
                         frame.locals_base
